@@ -326,7 +326,9 @@ class Ctx:
                 continue
             idx = [int(x.replace("%nat", "")) for x in re.findall(r"\d+", m.group(1))]
             for k in idx:
-                val = self._coq_value(imports, prelude, part[k][1])
+                # the model's value is printed for the first few failing cases only (each costs a coqc run)
+                nval = sum(1 for f in failing if not str(f[2]).startswith("(not evaluated"))
+                val = self._coq_value(imports, prelude, part[k][1]) if nval < 4 else "(not evaluated: see earlier cases)"
                 failing.append((ci + k, part[k][0], val))
         self.coverage["correspondence"][name] = {
             "cases": len(cases), "failing": len(failing)}
